@@ -3,6 +3,7 @@ module verif/harness/node
 go 1.19
 
 require (
+	github.com/alephium/go-sdk v0.0.0-20230918114914-5feda0147395
 	github.com/alephium/wormhole-fork/node v0.0.0
 	github.com/anishathalye/porcupine v1.3.0
 	github.com/benbjohnson/clock v1.3.0
@@ -18,7 +19,6 @@ require (
 	cloud.google.com/go v0.97.0 // indirect
 	cloud.google.com/go/kms v1.0.0 // indirect
 	cloud.google.com/go/logging v1.4.2 // indirect
-	github.com/alephium/go-sdk v0.0.0-20230918114914-5feda0147395 // indirect
 	github.com/beorn7/perks v1.0.1 // indirect
 	github.com/blendle/zapdriver v1.3.1 // indirect
 	github.com/btcsuite/btcd v0.22.0-beta // indirect
